@@ -22,3 +22,24 @@ package resource
 //@   ensures [seedflag] ok && n ==> nc.SeedValue == old(recv.SeedValue)
 //@   modifies nothing
 //@   replay Include(recv.OldValue != nil, recv.NewValue != nil, includeFunc == nil, includeFunc(recv.Id, recv.OldValue), includeFunc(recv.Id, recv.NewValue), includeFunc(recv.Id, nil), recv.ChangeType)
+//@
+//@ property C09
+//@ // The view of one id: (has, val).  An event is consistent with a view if it describes a real transition of it.
+//@ pure func realKind(k) = k == types.ChangeType_ADD || k == types.ChangeType_UPDATE || k == types.ChangeType_REPLACE || k == types.ChangeType_REMOVE
+//@ pure func consistent(has, val, c) = (c.ChangeType == types.ChangeType_ADD ==> !has) && (c.ChangeType != types.ChangeType_ADD ==> has && val == c.OldValue)
+//@ pure func hasAfter(c) = c.ChangeType != types.ChangeType_REMOVE
+//@
+//@ func mergeChanges(a, b) (c, send)
+//@   requires a.Id == b.Id && realKind(a.ChangeType) && realKind(b.ChangeType)
+//@   ensures [fold] forall has bool, val proto.Message :: consistent(has, val, a) && consistent(hasAfter(a), a.NewValue, b) ==>
+//@   |   (send ==> consistent(has, val, c) && hasAfter(c) == hasAfter(b) && (hasAfter(b) ==> c.NewValue == b.NewValue)) &&
+//@   |   (!send ==> !has && !hasAfter(b))
+//@   ensures [cancel] !send == (a.ChangeType == types.ChangeType_ADD && b.ChangeType == types.ChangeType_REMOVE)
+//@   ensures [oldchain] send && c.ChangeType != types.ChangeType_ADD ==> c.OldValue == a.OldValue
+//@   ensures [addold] send && c.ChangeType == types.ChangeType_ADD && a.ChangeType == types.ChangeType_ADD && b.ChangeType != types.ChangeType_ADD ==> c.OldValue == nil
+//@   ensures [replace] a.ChangeType == types.ChangeType_REMOVE && b.ChangeType == types.ChangeType_ADD ==> send && c.ChangeType == types.ChangeType_REPLACE
+//@   ensures [kind] send ==> realKind(c.ChangeType)
+//@   ensures [latest] send ==> c.Id == a.Id && c.NewValue == b.NewValue && c.ChangeTime == b.ChangeTime
+//@   ensures [lastseed] send ==> c.LastSeedValue == (a.LastSeedValue || b.LastSeedValue)
+//@   modifies nothing
+//@   replay MergeChanges(a.ChangeType, b.ChangeType, a.LastSeedValue, b.LastSeedValue)
